@@ -634,7 +634,13 @@ func (x *Exec) eval(st *State, e ast.Expr) Poly {
 		}
 		return x.opaque(e)
 	case *ast.CallExpr:
-		return x.evalCall(st, t, nil)
+		cv := x.evalCall(st, t, nil)
+		if tm := cv.single(); tm != nil && len(tm.M) == 1 && tm.M[0].E == 1 && tm.C.Cmp(ratInt(1)) == 0 && tm.M[0].A.Kind != "cell" && tm.M[0].A.Kind != "var" {
+			if tt := x.Info.TypeOf(e); tt != nil && isIntegerType(tt) {
+				tm.M[0].A.IntTyped = true
+			}
+		}
+		return cv
 	case *ast.SelectorExpr, *ast.IndexExpr, *ast.StarExpr:
 		pr := x.path(st, e)
 		if !pr.ok {
